@@ -82,6 +82,18 @@ def cases(tier, sd):
                                        gb=(1e9 if (fi + rep) % 3 == 0 else 8.0 * 216 / 1024 ** 3 * 60),
                                        importance=None),
                             length=0, family=fam, hseed=int(rng.integers(1 << 30))))
+    # ordered pairs of related keys, each on its own eviction-free instance
+    nch = 16 if tier == "quick" else 64
+    for c in range(nch):
+        gen = bool(tier == "thorough" and c % 4 == 3)
+        m = (dict(family=S.PulledBack.name, seed=int(rng.integers(1 << 20)), base='kasner', period=2.0)
+             if gen else dict(family=S.ADMTrig.name, seed=int(rng.integers(1 << 20)), period=2.0))
+        out.append(dict(kind='pairs', member=m, style=['tensor', 'components'][c % 2],
+                        vacuum=gen, Lambda=0.0 if gen else 0.2, tetrad=None, center=None,
+                        n1=6, order=2, mode='periodic', noncubic=None,
+                        cache=dict(every=10 ** 6, gb=1e9, importance=None),
+                        chunk=c % 16, nchunks=16, nrandom=(10 if tier == "quick" else 120),
+                        length=0, hseed=int(rng.integers(1 << 30))))
     return out
 
 
@@ -103,7 +115,7 @@ def traced_functions():
 
 
 def run_walk(spec, n, ops, scale_gb=1.0, fresh_for=None, ledger=None, audit=None,
-             trace=None):
+             trace=None, fresh_cache=None):
     """Run the walk on an n^3 periodic grid; returns per-op records."""
     lo, L = -1.0, 2.0
     if spec['member']['family'] == 'solution':
@@ -122,7 +134,7 @@ def run_walk(spec, n, ops, scale_gb=1.0, fresh_for=None, ledger=None, audit=None
     inputs, ex = H.build_inputs(spec, n, d, lo)
     cache = dict(spec['cache'], gb=spec['cache']['gb'] * scale_gb)
     recs = []
-    fresh_cache = {}
+    fresh_cache = {} if fresh_cache is None else fresh_cache
     import contextlib
     tr = monitor.BranchTrace(traced_functions()) if trace is not None else contextlib.nullcontext()
     with monitor.CoreProbe() as probe, tr:
@@ -170,7 +182,45 @@ def run_walk(spec, n, ops, scale_gb=1.0, fresh_for=None, ledger=None, audit=None
     return recs, events, counters, pviol
 
 
+def related_pairs():
+    """Ordered pairs of keys with related names (one contains the other, same
+    stem, long common prefix): where a cache shortcut between two quantities
+    would plausibly be written."""
+    import re
+    keys = H.all_keys()
+
+    def stem(k):
+        k = re.sub(r'^(dts_|dt|st_|s_)', '', k)
+        return re.sub(r'(_bssnok|up3|down3|up4|down4|mixed4|_udd3|_udd4|_n|_u|trace|mag|det)$', '', k)
+    return sorted((a, b) for a in keys for b in keys if a != b and (
+        a in b or b in a or stem(a) == stem(b) or len(os.path.commonprefix([a, b])) >= 5))
+
+
+def run_pairs(spec):
+    """'a then b' on a fresh eviction-free instance, for every related ordered
+    pair of this chunk (+ random pairs): b must equal its fresh value."""
+    res = common.new_result(spec)
+    keys = H.all_keys()
+    rng = np.random.default_rng([int(spec['hseed']), 5])
+    pairs = related_pairs()[spec['chunk']::spec['nchunks']]
+    pairs += [(keys[int(rng.integers(len(keys)))], keys[int(rng.integers(len(keys)))])
+              for _ in range(spec['nrandom'])]
+    shared, shared2 = {}, {}
+    t0 = time.time()
+    for a, b in pairs:
+        if a == b:
+            continue
+        if time.time() - t0 > 4 * WALK_BUDGET_S.get(os.environ.get('VERIF_TIER', 'quick'), 150):
+            res['monitor']['pairs_not_explored_work_cap'] = 1
+            break
+        judge(res, spec, [('key', a), ('key', b)], None, shared, shared2, pair=True)
+        res['monitor']['pairs'] = res['monitor'].get('pairs', 0) + 1
+    return res
+
+
 def run_case(spec):
+    if spec.get('kind') == 'pairs':
+        return run_pairs(spec)
     res = common.new_result(spec)
     keys = H.all_keys()
     rng = np.random.default_rng([int(spec['hseed']), 3])
@@ -187,13 +237,22 @@ def run_case(spec):
         x, y = F[int(rng.integers(len(F)))], F[int(rng.integers(len(F)))]
         pos = int(rng.integers(len(ops) + 1))
         ops[pos:pos] = [('key', x), ('key', y), ('key', x)]
-    p = spec['order']
     trace = {}
-    recs, events, counters, _ = run_walk(spec, spec['n1'], ops,
-                                         trace=trace if spec['hseed'] % 3 == 0 else None)
-    res['monitor'] = {k: v for k, v in counters.items() if k != 'nested_max'}
-    res['monitor']['arms'] = {k: v for k, v in trace.items()}
-    if len(recs) < len(ops):
+    judge(res, spec, ops, trace if spec['hseed'] % 3 == 0 else None)
+    return res
+
+
+def judge(res, spec, ops, trace, shared=None, shared2=None, pair=False):
+    p = spec['order']
+    recs, events, counters, _ = run_walk(spec, spec['n1'], ops, trace=trace, fresh_cache=shared)
+    for k, v in counters.items():
+        if k != 'nested_max':
+            res['monitor'][k] = res['monitor'].get(k, 0) + v
+    if trace is not None:
+        res['monitor']['arms'] = {k: v for k, v in trace.items()}
+    if pair:
+        recs = recs[1:]          # the first request of a pair is a fresh request itself
+    if len(recs) < len(ops) - (1 if pair else 0):
         res['monitor']['walks_truncated_by_work_cap'] = 1
         res['notes'].append(f"walk stopped after {len(recs)} of {len(ops)} requests (work cap)")
     cands = []
@@ -218,17 +277,20 @@ def run_case(spec):
             continue
         r['err'], r['scale'] = err, sc
         if err <= 1e-10 * max(sc, 1e-300) or err <= 1e-13:
-            if r['evictions_before'] > 0:
+            if pair:
+                res['nontrivial'].append(['pair', ops[0][1], name])
+            elif r['evictions_before'] > 0:
                 res['nontrivial'].append([name, common.jhash(sorted(r['cached'])), r['hit']])
             continue
         cands.append(r)
     if cands:
-        res['monitor']['tier2_candidates'] = len(cands)
+        res['monitor']['tier2_candidates'] = res['monitor'].get('tier2_candidates', 0) + len(cands)
         idx = {r['i'] for r in cands}
         openm = spec.get('mode', 'periodic') == 'open'
         n2 = 2 * spec['n1'] - 1 if openm else 2 * spec['n1']
         recs2, events2, _, _ = run_walk(spec, n2, ops[:max(idx) + 1],
-                                        scale_gb=(n2 / spec['n1']) ** 3, fresh_for=idx)
+                                        scale_gb=(n2 / spec['n1']) ** 3, fresh_for=idx,
+                                        fresh_cache=shared2)
         w1 = w2 = None
         if openm:       # interior window: every nested stencil centred
             mg = 2 * (p // 2)
@@ -260,14 +322,15 @@ def run_case(spec):
             #  a stale / wrong-branch value does not shrink at all)
             if e2 <= 1e-9 * sc or e1 / max(e2, 1e-300) >= need:
                 res['monitor']['tier2_accepted'] = res['monitor'].get('tier2_accepted', 0) + 1
-                if r['evictions_before'] > 0:
+                if pair:
+                    res['nontrivial'].append(['pair', ops[0][1], name, 'tier2'])
+                elif r['evictions_before'] > 0:
                     res['nontrivial'].append([name, common.jhash(sorted(r['cached'])), r['hit'], 'tier2'])
             elif not same_trace:
                 res['notes'].append(f"tier2 trace mismatch for {name}: inconclusive")
                 res['monitor']['tier2_trace_mismatch'] = res['monitor'].get('tier2_trace_mismatch', 0) + 1
             else:
                 common.add_violation(res, f"{name} differs from fresh instance", det)
-    return res
 
 
 def coverage_check(tier, monitor_totals, results):
